@@ -72,7 +72,13 @@ pub fn build(case: &StreamCase) -> Scenario {
     for (j, a) in case.appends.iter().enumerate() {
         let func = format!("a{}", j);
         services.insert(func.clone(), Ret::Const(json!({"a": format!("early-{}", j), "n": j % 2, "p": peers[pick(a[1].wrapping_mul(31), n)].id})));
-        let c = lit_call(&peers[pick(a[0], n)].id, "app", &func, vec![], Some("$s"));
+        let c = if a[1] % 3 == 2 {
+            // the append is an `ap` of a scalar call result (it runs on every peer that has the result)
+            let v = format!("e{}", j);
+            I::seq(lit_call(&peers[pick(a[0], n)].id, "app", &func, vec![], Some(&v)), I::Ap { src: Arg::var(&v), dst: "$s".into() })
+        } else {
+            lit_call(&peers[pick(a[0], n)].id, "app", &func, vec![], Some("$s"))
+        };
         appends = Some(match appends {
             None => c,
             Some(prev) => {
@@ -145,6 +151,34 @@ fn stream_value(d: &InterpreterData, st: &ExecutedState) -> Option<(Value, u32)>
     None
 }
 
+/// value of a scalar call state
+fn scalar_value(d: &InterpreterData, st: &ExecutedState) -> Option<Value> {
+    if let ExecutedState::Call(CallResult::Executed(ValueRef::Scalar(cid))) = st {
+        let sr = d.cid_info.service_result_store.get(cid)?;
+        let raw = d.cid_info.value_store.get(&sr.value_cid)?;
+        return serde_json::from_str(&crate::model::data::raw_text(&raw)).ok();
+    }
+    None
+}
+
+/// value appended to $s by the state at position `i`: a stream-valued call state, or an `ap`
+/// state — the scenario scripts use `ap` only as `(seq (call .. v) (ap v $s))`, whose two states
+/// are adjacent in every trace, so the appended value is the scalar result right before it
+fn appended_at(d: &InterpreterData, i: usize) -> Option<(Value, u32)> {
+    let st = &d.trace[(i as u32).into()];
+    if let Some(x) = stream_value(d, st) {
+        return Some(x);
+    }
+    if let ExecutedState::Ap(a) = st {
+        if i > 0 {
+            if let (Some(g), Some(v)) = (a.res_generations.first(), scalar_value(d, &d.trace[((i - 1) as u32).into()])) {
+                return Some((v, usize::from(*g) as u32));
+            }
+        }
+    }
+    None
+}
+
 /// (position, canon cid, tetraplet peer, values)
 fn canons(d: &InterpreterData) -> Vec<(usize, String, String, Vec<Value>)> {
     let mut out = vec![];
@@ -170,11 +204,8 @@ fn canons(d: &InterpreterData) -> Vec<(usize, String, String, Vec<Value>)> {
 /// stream values at positions before `upto`, in (generation, position) order
 fn stream_before(d: &InterpreterData, upto: usize) -> Vec<Value> {
     let mut v: Vec<(u32, usize, Value)> = vec![];
-    for (i, st) in d.trace.iter().enumerate() {
-        if i >= upto {
-            break;
-        }
-        if let Some((val, g)) = stream_value(d, st) {
+    for i in 0..d.trace.len().min(upto) {
+        if let Some((val, g)) = appended_at(d, i) {
             v.push((g, i, val));
         }
     }
@@ -355,7 +386,7 @@ impl Property for C13 {
         stream_case_strategy()
     }
     fn required_classes(&self) -> Vec<&'static str> {
-        vec!["visits_complete_checked", "recursive_append_visited", "recursive_append_visited_after_an_earlier_fold", "local_canon_checked", "folder_got_values_in_2_deliveries", "late_append_visited"]
+        vec!["visits_complete_checked", "recursive_append_visited", "recursive_append_visited_after_an_earlier_fold", "append_by_ap", "local_canon_checked", "folder_got_values_in_2_deliveries", "late_append_visited"]
     }
     fn check(&self, case: &StreamCase, _tier: Tier) -> CaseResult {
         let (sc, log, peers, quiescent) = run_scenario(case);
@@ -388,6 +419,9 @@ impl Property for C13 {
             if case.prefold == 1 {
                 rep.classes.push("recursive_append_visited_after_an_earlier_fold".into());
             }
+        }
+        if sc.script.text.contains("(ap e") {
+            rep.classes.push("append_by_ap".into());
         }
         if visited.iter().any(|v| v["a"].as_str().map(|s| s.starts_with("late")).unwrap_or(false)) {
             rep.classes.push("late_append_visited".into());
